@@ -21,6 +21,7 @@
 #include <cstdlib>
 #include <cstring>
 #include <ctime>
+#include <dirent.h>
 #include <fcntl.h>
 #include <poll.h>
 #include <string>
@@ -31,7 +32,10 @@
 namespace verif {
 
   struct ForkOutcome {
-    enum How { EXITED, SIGNALED, TIMEOUT, FORK_FAILED } how = EXITED;
+    //! DEADLOCK: every thread of the child sleeps in a futex wait without
+    //! time-out and none was scheduled between two samples (load independent);
+    //! TIMEOUT: the time budget was hit (inconclusive, never a verdict)
+    enum How { EXITED, SIGNALED, TIMEOUT, FORK_FAILED, DEADLOCK } how = EXITED;
     int code = 0;      //!< exit code or signal number
     std::string text;  //!< everything the child wrote to the report fd (and stderr)
     double seconds = 0;
@@ -59,12 +63,64 @@ namespace verif {
   }
 
   /*!
+   * \return true (and the total number of context switches) when every thread
+   * of `pid` is blocked in futex(FUTEX_WAIT[_BITSET]) with a null time-out
+   */
+  inline bool allThreadsInInfiniteFutexWait(const pid_t pid, unsigned long long& switches) {
+    char path[128];
+    std::snprintf(path, sizeof path, "/proc/%ld/task", static_cast<long>(pid));
+    DIR* d = ::opendir(path);
+    if (d == nullptr) return false;
+    bool all = true;
+    int n = 0;
+    switches = 0;
+    while (const dirent* e = ::readdir(d)) {
+      if (e->d_name[0] == '.') continue;
+      ++n;
+      char buf[512];
+      std::snprintf(path, sizeof path, "/proc/%ld/task/%s/syscall", static_cast<long>(pid), e->d_name);
+      FILE* f = std::fopen(path, "r");
+      if (f == nullptr) {
+        all = false;
+        break;
+      }
+      const bool got = std::fgets(buf, sizeof buf, f) != nullptr;
+      std::fclose(f);
+      unsigned long long nr = 0, a0 = 0, a1 = 0, a2 = 0, a3 = 1;
+      if (!got || std::sscanf(buf, "%llu %llx %llx %llx %llx", &nr, &a0, &a1, &a2, &a3) != 5) {
+        all = false;  // "running" or unreadable
+        break;
+      }
+      const auto op = a1 & 0x7f;
+      if (!(nr == 202 && (op == 0 || op == 9) && a3 == 0)) {
+        all = false;
+        break;
+      }
+      std::snprintf(path, sizeof path, "/proc/%ld/task/%s/status", static_cast<long>(pid), e->d_name);
+      f = std::fopen(path, "r");
+      if (f == nullptr) {
+        all = false;
+        break;
+      }
+      while (std::fgets(buf, sizeof buf, f) != nullptr) {
+        unsigned long long v;
+        if (std::sscanf(buf, "voluntary_ctxt_switches: %llu", &v) == 1) switches += v;
+        if (std::sscanf(buf, "nonvoluntary_ctxt_switches: %llu", &v) == 1) switches += v;
+      }
+      std::fclose(f);
+    }
+    ::closedir(d);
+    return all && n > 0;
+  }
+
+  /*!
    * \param child: callable `void(int report_fd)`; run in the child, which then
    *        `_exit(0)`s.  stderr of the child is redirected to the report pipe.
    * \param timeout: seconds after which the child's group is killed
+   * \param detectDeadlock: sample the threads of the child (see DEADLOCK)
    */
   template <typename F>
-  ForkOutcome runForked(F&& child, const double timeout) {
+  ForkOutcome runForked(F&& child, const double timeout, const bool detectDeadlock = false) {
     ForkOutcome o;
     int fds[2];
     if (::pipe2(fds, O_CLOEXEC) == -1) {
@@ -94,8 +150,10 @@ namespace verif {
     }
     ::setpgid(pid, pid);
     ::close(fds[1]);
-    bool timed_out = false;
+    bool timed_out = false, deadlock = false;
     char buf[4096];
+    int same = 0;
+    unsigned long long lastSwitches = 0;
     for (;;) {
       const double left = timeout - (monotonicSeconds() - t0);
       if (left <= 0) {
@@ -103,12 +161,28 @@ namespace verif {
         break;
       }
       pollfd pf{fds[0], POLLIN, 0};
-      const int r = ::poll(&pf, 1, static_cast<int>(left * 1000) + 1);
+      const int slice = detectDeadlock ? 300 : static_cast<int>(left * 1000) + 1;
+      const int r = ::poll(&pf, 1, slice);
       if (r == -1) {
         if (errno == EINTR) continue;
         break;
       }
-      if (r == 0) continue;
+      if (r == 0) {
+        if (detectDeadlock) {
+          unsigned long long sw = 0;
+          if (allThreadsInInfiniteFutexWait(pid, sw) && (same == 0 || sw == lastSwitches)) {
+            lastSwitches = sw;
+            if (++same >= 4) {  // 4 identical samples, 0.3 s apart
+              timed_out = deadlock = true;
+              break;
+            }
+          } else {
+            same = 0;
+          }
+        }
+        continue;
+      }
+      same = 0;
       const auto n = ::read(fds[0], buf, sizeof buf);
       if (n == -1) {
         if (errno == EINTR) continue;
@@ -129,7 +203,7 @@ namespace verif {
         if (n <= 0) break;
         if (o.text.size() < (1u << 20)) o.text.append(buf, static_cast<std::size_t>(n));
       }
-      o.how = ForkOutcome::TIMEOUT;
+      o.how = deadlock ? ForkOutcome::DEADLOCK : ForkOutcome::TIMEOUT;
     } else {
       // EOF seen: the child is exiting; a short grace period, then kill
       const double t1 = monotonicSeconds();
